@@ -6,7 +6,7 @@
 (*   coordinator CoWake                        (one eventBox.Wait callback: all pending events, in ANY order -     *)
 (*                                              Go map iteration - each handler atomically, then events.Clear())   *)
 (*   matcher     MaPick, MaChunk, MaSeeReset, MaPublish   (reqBox.Wait; one chunk of scan; Peek(reqReset))         *)
-(*   terminal    TeEdit, TeToggleSort          (query edit / toggle-sort -> EvtSearchNew)                          *)
+(*   terminal    TeEdit, TeToggleSort, TeExclude, TeReload   (query edit / toggle-sort / exclude / reload -> EvtSearchNew) *)
 (* Items are 1..pushed; Holds(q, i) tabulates which items satisfy which query of a small lattice that satisfies   *)
 (* NarrowingSound (FzfQuery): Filter("ab") is a subset of Filter("a") and Filter("b").                            *)
 EXTENDS Integers, Sequences, FiniteSets, TLC
@@ -16,7 +16,8 @@ CONSTANTS MaxItems,       \* items the reader will push
           QueryCacheMax,  \* a chunk result longer than this is not cached
           MaxEdits,       \* bound on terminal actions
           Queries,        \* e.g. {"", "a", "b", "ab"}
-          AllowOlder      \* TRUE: model the deviation that MaPick may serve the older of two pending requests
+          AllowOlder,     \* TRUE: model the deviation that MaPick may serve the older of two pending requests
+          MaxReloads      \* bound on reload actions
 
 None == [none |-> TRUE]
 
@@ -35,61 +36,83 @@ ChunkItems(c, n) == {i \in 1..n : (i - 1) \div ChunkSize + 1 = c}
 Cacheable(c, n) == c < NumChunks(n) /\ Cardinality(ChunkItems(c, n)) = ChunkSize
 
 VARIABLES pushed, rdFin,
-          ebox,        \* [readNew, readFin, searchNew : BOOLEAN, searchFin : merger or None]
-          reading, snapCount, cq, csort,                         \* coordinator
+          rdKilled,    \* the coordinator terminated the running input command (reload while loading); the reader will finish
+          ebox,        \* [readNew, readFin : BOOLEAN, searchNew : request record or None, searchFin : merger or None]
+          reading, snapCount, snapMajor, cq, csort,              \* coordinator
+          major,       \* coordinator: input generation (inputRevision.major), bumped by every restart
+          nextCmd,     \* coordinator: a reload waits for the terminated reader to finish
           rbox, reqNo,                                            \* matcher request box: [retry, reset : request or None]
           mst, mreq, mdone, macc, msort, prevCount, mcache,       \* matcher
-          ccache,      \* chunk cache: set of [c, key, items]
-          tinput, tsort, tlist, edits,                            \* terminal
+          ccache,      \* chunk cache: set of [major, c, key, items, gen]
+          tinput, tsort, tlist, edits, reloads,                   \* terminal
           dev,         \* deviation labels that fired
           deny,        \* coordinator: excluded items (denylist); requests carry a copy
           gen,         \* coordinator: exclusion generation (minor revision), bumped by every exclusion it applies
-          mgen,        \* matcher: generation of the last request served (a change clears the merger cache)
-          wanted       \* ghost: items the user has excluded
-vars == <<pushed, rdFin, ebox, reading, snapCount, cq, csort, rbox, reqNo, mst, mreq, mdone, macc, msort, prevCount,
-          mcache, ccache, tinput, tsort, tlist, edits, dev, deny, gen, mgen, wanted>>
+          mgen,        \* matcher: <<major, gen>> of the last request served (a change clears the merger cache)
+          wanted,      \* ghost: items of the current input the user has excluded
+          wantedMajor  \* ghost: number of reloads the user has asked for
+vars == <<pushed, rdFin, rdKilled, ebox, reading, snapCount, snapMajor, cq, csort, major, nextCmd, rbox, reqNo, mst, mreq, mdone, macc,
+          msort, prevCount, mcache, ccache, tinput, tsort, tlist, edits, reloads, dev, deny, gen, mgen, wanted, wantedMajor>>
+readerVars == <<pushed, rdFin, rdKilled>>
+coordVars == <<reading, snapCount, snapMajor, cq, csort, major, nextCmd, deny, gen>>
+matcherVars == <<mst, mreq, mdone, macc, msort, prevCount, mcache, mgen>>
+termVars == <<tinput, tsort, edits, reloads>>
 
-Init == /\ pushed = 0 /\ rdFin = FALSE
+Init == /\ pushed = 0 /\ rdFin = FALSE /\ rdKilled = FALSE
         /\ ebox = [readNew |-> FALSE, readFin |-> FALSE, searchNew |-> None, searchFin |-> None]
-        /\ reading = TRUE /\ snapCount = 0 /\ cq = "" /\ csort = TRUE
+        /\ reading = TRUE /\ snapCount = 0 /\ snapMajor = 0 /\ cq = "" /\ csort = TRUE /\ major = 0 /\ nextCmd = FALSE
         /\ rbox = [retry |-> None, reset |-> None] /\ reqNo = 0
         /\ mst = "idle" /\ mreq = None /\ mdone = {} /\ macc = {} /\ msort = TRUE /\ prevCount = 0
         /\ mcache = [q \in Queries |-> None] /\ ccache = {}
-        /\ tinput = "" /\ tsort = TRUE /\ tlist = None /\ edits = 0 /\ dev = {}
-        /\ deny = {} /\ gen = 0 /\ mgen = 0 /\ wanted = {}
+        /\ tinput = "" /\ tsort = TRUE /\ tlist = None /\ edits = 0 /\ reloads = 0 /\ dev = {}
+        /\ deny = {} /\ gen = 0 /\ mgen = <<0, 0>> /\ wanted = {} /\ wantedMajor = 0
 
 -------------------------------------------------------------------------------
-(* Reader *)
-RdPush == /\ ~rdFin /\ pushed < MaxItems
+(* Reader (one input command at a time; a reload starts the next generation) *)
+RdPush == /\ ~rdFin /\ ~rdKilled /\ pushed < MaxItems
           /\ pushed' = pushed + 1
           /\ ebox' = [ebox EXCEPT !.readNew = TRUE]
-          /\ UNCHANGED <<rdFin, reading, snapCount, cq, csort, rbox, reqNo, mst, mreq, mdone, macc, msort, prevCount, mcache,
-                         ccache, tinput, tsort, tlist, edits, dev, deny, gen, mgen, wanted>>
+          /\ UNCHANGED <<rdFin, rdKilled, coordVars, rbox, reqNo, matcherVars, ccache, termVars, tlist, dev, wanted, wantedMajor>>
 RdFin == /\ ~rdFin /\ rdFin' = TRUE
          /\ ebox' = [ebox EXCEPT !.readFin = TRUE]
-         /\ UNCHANGED <<pushed, reading, snapCount, cq, csort, rbox, reqNo, mst, mreq, mdone, macc, msort, prevCount, mcache,
-                        ccache, tinput, tsort, tlist, edits, dev, deny, gen, mgen, wanted>>
+         /\ UNCHANGED <<pushed, rdKilled, coordVars, rbox, reqNo, matcherVars, ccache, termVars, tlist, dev, wanted, wantedMajor>>
 
 -------------------------------------------------------------------------------
 (* Coordinator: the handlers, as functions on a record of the variables they touch *)
-Req(q, n, final, sort, no, cancel, d, g) == [q |-> q, count |-> n, final |-> final, sort |-> sort, no |-> no, cancel |-> cancel,
-                                            deny |-> d, gen |-> g]
-CoState == [reading |-> reading, snapCount |-> snapCount, cq |-> cq, csort |-> csort, rbox |-> rbox, reqNo |-> reqNo, tlist |-> tlist,
-            deny |-> deny, gen |-> gen, ccache |-> ccache]
+Req(q, mj, n, final, sort, no, cancel, d, g) == [q |-> q, major |-> mj, count |-> n, final |-> final, sort |-> sort, no |-> no,
+                                                cancel |-> cancel, deny |-> d, gen |-> g]
+CoState == [reading |-> reading, snapCount |-> snapCount, snapMajor |-> snapMajor, cq |-> cq, csort |-> csort, rbox |-> rbox,
+            reqNo |-> reqNo, tlist |-> tlist, deny |-> deny, gen |-> gen, ccache |-> ccache, major |-> major, nextCmd |-> nextCmd,
+            pushed |-> pushed, rdFin |-> rdFin, rdKilled |-> rdKilled, wanted |-> wanted]
 
-HRead(s, fin) ==      \* EvtReadNew / EvtReadFin: snapshot, UpdateCount, matcher.Reset(..., cancel = false)
-    LET rd == s.reading /\ ~fin
-        no == s.reqNo + 1
-    IN [s EXCEPT !.reading = rd, !.snapCount = pushed, !.cq = tinput, !.reqNo = no,
-                 !.rbox.retry = Req(tinput, pushed, ~rd, s.csort, no, FALSE, s.deny, s.gen)]
-HSearchNew(s) ==      \* EvtSearchNew: apply exclusions (clear caches, bump the generation), fresh snapshot, Reset(cancel)
-    LET no == s.reqNo + 1
-        add == ebox.searchNew.deny
+(* restart(): forget the exclusions, clear the chunk list, next input generation, start the reader again *)
+Restart(s) == [s EXCEPT !.deny = {}, !.wanted = {}, !.reading = TRUE, !.pushed = 0, !.major = @ + 1, !.gen = 0,
+                        !.rdFin = FALSE, !.rdKilled = FALSE]
+
+HRead(s, fin) ==      \* EvtReadNew / EvtReadFin
+    IF fin /\ s.nextCmd
+    THEN [Restart(s) EXCEPT !.nextCmd = FALSE]                    \* the terminated command has ended: run the pending reload
+    ELSE LET rd == s.reading /\ ~fin                              \* snapshot, UpdateCount, matcher.Reset(..., cancel = false)
+             no == s.reqNo + 1
+         IN [s EXCEPT !.reading = rd, !.snapCount = s.pushed, !.snapMajor = s.major, !.cq = tinput, !.reqNo = no,
+                      !.rbox.retry = Req(tinput, s.major, s.pushed, ~rd, s.csort, no, FALSE, s.deny, s.gen)]
+HSearchNew(s) ==      \* EvtSearchNew: exclusions (clear caches, bump the generation), reload, fresh snapshot, Reset(cancel)
+    LET v == ebox.searchNew
+        add == IF v.major = s.major THEN v.deny ELSE {}      \* exclusions of a list of another input generation are ignored
         d2 == s.deny \cup add
         g2 == IF add # {} THEN s.gen + 1 ELSE s.gen
-    IN [s EXCEPT !.csort = ebox.searchNew.sort, !.snapCount = pushed, !.cq = tinput, !.reqNo = no, !.deny = d2, !.gen = g2,
-                 !.ccache = IF add # {} THEN {} ELSE s.ccache,
-                 !.rbox.reset = Req(tinput, pushed, ~s.reading, ebox.searchNew.sort, no, TRUE, d2, g2)]
+        s1 == [s EXCEPT !.csort = v.sort, !.deny = d2, !.gen = g2, !.ccache = IF add # {} THEN {} ELSE s.ccache]
+        s2 == IF ~v.reload THEN s1
+              ELSE IF s1.reading THEN [s1 EXCEPT !.rdKilled = TRUE, !.nextCmd = TRUE]     \* reader.terminate(); restart at ReadFin
+              ELSE Restart(s1)
+        no == s2.reqNo + 1
+        (* "we want to avoid showing an empty list when reload is triggered and the query is changed at the same time" *)
+        take == ~v.reload \/ s2.pushed > 0
+        sc == IF take THEN s2.pushed ELSE s2.snapCount
+        sm == IF take THEN s2.major ELSE s2.snapMajor
+    IN IF ~v.changed THEN s2
+       ELSE [s2 EXCEPT !.snapCount = sc, !.snapMajor = sm, !.cq = tinput, !.reqNo = no,
+                       !.rbox.reset = Req(tinput, sm, sc, ~s2.reading, v.sort, no, TRUE, s2.deny, s2.gen)]
 HSearchFin(s) == [s EXCEPT !.tlist = ebox.searchFin]      \* terminal.UpdateList
 
 Pending == (IF ebox.readFin THEN {"readFin"} ELSE IF ebox.readNew THEN {"readNew"} ELSE {})   \* ReadFin deletes ReadNew
@@ -103,26 +126,28 @@ Perms(S) == {f \in [1..Cardinality(S) -> S] : \A i, j \in 1..Cardinality(S) : i 
 CoWake == /\ Pending # {}
           /\ \E order \in Perms(Pending) :
                LET s == HandleAll(CoState, order)
-               IN /\ reading' = s.reading /\ snapCount' = s.snapCount /\ cq' = s.cq /\ csort' = s.csort
+               IN /\ reading' = s.reading /\ snapCount' = s.snapCount /\ snapMajor' = s.snapMajor /\ cq' = s.cq /\ csort' = s.csort
                   /\ rbox' = s.rbox /\ reqNo' = s.reqNo /\ tlist' = s.tlist
-                  /\ deny' = s.deny /\ gen' = s.gen /\ ccache' = s.ccache
+                  /\ deny' = s.deny /\ gen' = s.gen /\ ccache' = s.ccache /\ major' = s.major /\ nextCmd' = s.nextCmd
+                  /\ pushed' = s.pushed /\ rdFin' = s.rdFin /\ rdKilled' = s.rdKilled /\ wanted' = s.wanted
           /\ ebox' = [readNew |-> FALSE, readFin |-> FALSE, searchNew |-> None, searchFin |-> None]
-          /\ UNCHANGED <<pushed, rdFin, mst, mreq, mdone, macc, msort, prevCount, mcache, tinput, tsort, edits, dev, mgen, wanted>>
+          /\ UNCHANGED <<matcherVars, termVars, dev, wantedMajor>>
 
 -------------------------------------------------------------------------------
 (* Matcher *)
-Merger(r, items) == [q |-> r.q, count |-> r.count, final |-> r.final, sort |-> r.sort, items |-> items, no |-> r.no, deny |-> r.deny]
+Merger(r, items) == [q |-> r.q, major |-> r.major, count |-> r.count, final |-> r.final, sort |-> r.sort, items |-> items, no |-> r.no,
+                     deny |-> r.deny]
 Slots == {k \in {"retry", "reset"} : rbox[k] # None}
 Newest == CHOOSE k \in Slots : \A j \in Slots : rbox[j].no <= rbox[k].no
 
 (* after picking request r: cache decisions of Matcher.Loop; either publish at once or start scanning *)
 PickCont(r) ==
-    LET cleared == r.sort # msort \/ r.gen # mgen
+    LET cleared == r.sort # msort \/ <<r.major, r.gen>> # mgen
         hit == ~cleared /\ r.count = prevCount /\ mcache[r.q] # None /\ mcache[r.q].final = r.final
         mc1 == IF cleared \/ r.count # prevCount THEN [q \in Queries |-> None] ELSE mcache
         immediate == r.count = 0 \/ (r.q = "" /\ r.deny = {})   \* EmptyMerger / PassMerger: no scan (a pattern with exclusions is never "empty")
         m == IF hit THEN [mcache[r.q] EXCEPT !.final = r.final, !.no = r.no] ELSE Merger(r, FilterD("", r.count, r.deny))
-    IN /\ msort' = r.sort /\ mgen' = r.gen
+    IN /\ msort' = r.sort /\ mgen' = <<r.major, r.gen>>
        /\ prevCount' = IF ~cleared /\ r.count # prevCount THEN r.count ELSE prevCount
        /\ IF hit \/ immediate
           THEN /\ ebox' = [ebox EXCEPT !.searchFin = m]
@@ -136,9 +161,10 @@ MaPick == /\ mst = "idle" /\ Slots # {}
                /\ dev' = IF k # Newest THEN dev \cup {"ServeOlderSlot"} ELSE dev
                /\ PickCont(rbox[k])
           /\ rbox' = [retry |-> None, reset |-> None]
-          /\ UNCHANGED <<pushed, rdFin, reading, snapCount, cq, csort, reqNo, ccache, tinput, tsort, tlist, edits, deny, gen, wanted>>
+          /\ UNCHANGED <<readerVars, coordVars, reqNo, ccache, termVars, tlist, wanted, wantedMajor>>
 
-CEntry(c, key) == {e \in ccache : e.c = c /\ e.key = key}
+(* chunks are objects of one input generation: entries of another generation are unreachable *)
+CEntry(c, key) == {e \in ccache : e.major = mreq.major /\ e.c = c /\ e.key = key}
 (* The chunk cache is keyed by (chunk, cache key) only; entries are tagged here with the exclusion generation they   *)
 (* were computed under (ghost).  An exact hit on an entry of another generation is the deviation StaleChunkCache     *)
 (* (finding F17): the coordinator clears the cache when it applies an exclusion, but a request of the older          *)
@@ -156,54 +182,56 @@ MaChunk(c) ==
             LET matches == IF hit # None THEN space ELSE {i \in space : Holds(key, i) /\ i \notin mreq.deny}
             IN /\ macc' = macc \cup matches
                /\ ccache' = IF usable /\ hit = None /\ Cardinality(matches) <= QueryCacheMax
-                            THEN ccache \cup {[c |-> c, key |-> key, items |-> matches, gen |-> mreq.gen]} ELSE ccache
+                            THEN ccache \cup {[major |-> mreq.major, c |-> c, key |-> key, items |-> matches, gen |-> mreq.gen]} ELSE ccache
                /\ dev' = IF hit # None /\ hit.gen # mreq.gen THEN dev \cup {"StaleChunkCache"} ELSE dev
     /\ mdone' = mdone \cup {c}
-    /\ UNCHANGED <<pushed, rdFin, ebox, reading, snapCount, cq, csort, rbox, reqNo, mst, mreq, msort, prevCount, mcache,
-                   tinput, tsort, tlist, edits, deny, gen, mgen, wanted>>
+    /\ UNCHANGED <<readerVars, ebox, coordVars, rbox, reqNo, mst, mreq, msort, prevCount, mcache, mgen, termVars, tlist, wanted, wantedMajor>>
 
 (* the scan loop peeks at the request box between chunks; only a cancelling request interrupts *)
 MaSeeReset == /\ mst = "scanning" /\ rbox.reset # None /\ mdone # {} /\ mdone # 1..NumChunks(mreq.count)
               /\ mst' = "idle" /\ mreq' = None /\ mdone' = {} /\ macc' = {}
-              /\ UNCHANGED <<pushed, rdFin, ebox, reading, snapCount, cq, csort, rbox, reqNo, msort, prevCount, mcache, ccache,
-                             tinput, tsort, tlist, edits, dev, deny, gen, mgen, wanted>>
+              /\ UNCHANGED <<readerVars, ebox, coordVars, rbox, reqNo, msort, prevCount, mcache, mgen, ccache, termVars, tlist, dev, wanted,
+                             wantedMajor>>
 MaPublish == /\ mst = "scanning" /\ mdone = 1..NumChunks(mreq.count)
              /\ LET m == Merger(mreq, macc)
                 IN /\ ebox' = [ebox EXCEPT !.searchFin = m]
                    /\ mcache' = [mcache EXCEPT ![mreq.q] = m]
              /\ mst' = "idle" /\ mreq' = None /\ mdone' = {} /\ macc' = {}
-             /\ UNCHANGED <<pushed, rdFin, reading, snapCount, cq, csort, rbox, reqNo, msort, prevCount, ccache,
-                            tinput, tsort, tlist, edits, dev, deny, gen, mgen, wanted>>
+             /\ UNCHANGED <<readerVars, coordVars, rbox, reqNo, msort, prevCount, mgen, ccache, termVars, tlist, dev, wanted, wantedMajor>>
 
 -------------------------------------------------------------------------------
 (* Terminal *)
 (* EvtSearchNew is a one-slot box: a new request overwrites a pending one.  The terminal builds every request from    *)
-(* scratch, so an exclusion list carried by a pending request is lost when the next query-changing action arrives     *)
-(* before the coordinator took it - deviation LostExclusion (finding F21).                                            *)
-SearchNewVal(d) == [sort |-> tsort', deny |-> d]
-Overwrites == ebox.searchNew # None /\ ebox.searchNew.deny # {}
+(* scratch, so an exclusion list (or a reload command) carried by a pending request is lost when the next             *)
+(* query-changing action arrives before the coordinator took it - deviation LostExclusion (finding F21).              *)
+SearchNewVal(d, rl, ch) == [sort |-> tsort', deny |-> d, reload |-> rl, changed |-> ch,
+                            major |-> IF tlist = None THEN 0 ELSE tlist.major]   \* revision of the list on display
+Overwrites == ebox.searchNew # None /\ (ebox.searchNew.deny # {} \/ ebox.searchNew.reload)
 TeEdit(q) == /\ edits < MaxEdits /\ q # tinput
              /\ tinput' = q /\ edits' = edits + 1 /\ tsort' = tsort
-             /\ ebox' = [ebox EXCEPT !.searchNew = SearchNewVal({})]
+             /\ ebox' = [ebox EXCEPT !.searchNew = SearchNewVal({}, FALSE, TRUE)]
              /\ dev' = IF Overwrites THEN dev \cup {"LostExclusion"} ELSE dev
-             /\ UNCHANGED <<pushed, rdFin, reading, snapCount, cq, csort, rbox, reqNo, mst, mreq, mdone, macc, msort, prevCount,
-                            mcache, ccache, tlist, deny, gen, mgen, wanted>>
+             /\ UNCHANGED <<readerVars, coordVars, rbox, reqNo, matcherVars, ccache, tlist, reloads, wanted, wantedMajor>>
 TeToggleSort == /\ edits < MaxEdits
-                /\ tsort' = ~tsort /\ edits' = edits + 1
-                /\ ebox' = [ebox EXCEPT !.searchNew = SearchNewVal({})]
+                /\ tsort' = ~tsort /\ edits' = edits + 1 /\ tinput' = tinput
+                /\ ebox' = [ebox EXCEPT !.searchNew = SearchNewVal({}, FALSE, TRUE)]
                 /\ dev' = IF Overwrites THEN dev \cup {"LostExclusion"} ELSE dev
-                /\ UNCHANGED <<pushed, rdFin, reading, snapCount, cq, csort, rbox, reqNo, mst, mreq, mdone, macc, msort,
-                               prevCount, mcache, ccache, tinput, tlist, deny, gen, mgen, wanted>>
-(* exclude: the item under the cursor - any item of the list on display *)
-TeExclude(i) == /\ edits < MaxEdits /\ tlist # None /\ i \in tlist.items
-                /\ edits' = edits + 1 /\ wanted' = wanted \cup {i} /\ tsort' = tsort
-                /\ ebox' = [ebox EXCEPT !.searchNew = SearchNewVal({i})]
+                /\ UNCHANGED <<readerVars, coordVars, rbox, reqNo, matcherVars, ccache, tlist, reloads, wanted, wantedMajor>>
+(* exclude: the item under the cursor - any item of the list on display, if it shows the current input *)
+TeExclude(i) == /\ edits < MaxEdits /\ tlist # None /\ i \in tlist.items /\ tlist.major = major
+                /\ edits' = edits + 1 /\ wanted' = wanted \cup {i} /\ tsort' = tsort /\ tinput' = tinput
+                /\ ebox' = [ebox EXCEPT !.searchNew = SearchNewVal({i}, FALSE, TRUE)]
                 /\ dev' = IF Overwrites THEN dev \cup {"LostExclusion"} ELSE dev
-                /\ UNCHANGED <<pushed, rdFin, reading, snapCount, cq, csort, rbox, reqNo, mst, mreq, mdone, macc, msort,
-                               prevCount, mcache, ccache, tinput, tlist, deny, gen, mgen>>
+                /\ UNCHANGED <<readerVars, coordVars, rbox, reqNo, matcherVars, ccache, tlist, reloads, wantedMajor>>
+(* reload: a new input command; the request does not by itself start a search (changed = FALSE) *)
+TeReload == /\ edits < MaxEdits /\ reloads < MaxReloads
+            /\ edits' = edits + 1 /\ reloads' = reloads + 1 /\ wantedMajor' = wantedMajor + 1 /\ tsort' = tsort /\ tinput' = tinput
+            /\ ebox' = [ebox EXCEPT !.searchNew = SearchNewVal({}, TRUE, FALSE)]
+            /\ dev' = IF Overwrites THEN dev \cup {"LostExclusion"} ELSE dev
+            /\ UNCHANGED <<readerVars, coordVars, rbox, reqNo, matcherVars, ccache, tlist, wanted>>
 
 System == RdPush \/ RdFin \/ CoWake \/ MaPick \/ (\E c \in 1..NumChunks(MaxItems) : MaChunk(c)) \/ MaSeeReset \/ MaPublish
-User == (\E q \in Queries : TeEdit(q)) \/ TeToggleSort \/ (\E i \in 1..MaxItems : TeExclude(i))
+User == (\E q \in Queries : TeEdit(q)) \/ TeToggleSort \/ (\E i \in 1..MaxItems : TeExclude(i)) \/ TeReload
 Next == System \/ User
 Spec == Init /\ [][Next]_vars /\ WF_vars(System)
 
@@ -215,13 +243,16 @@ PublishedIsFilter == (ebox.searchFin # None /\ "StaleChunkCache" \notin dev) => 
 ShownIsFilter == (tlist # None /\ "StaleChunkCache" \notin dev) => IsFilter(tlist)
 MergerCacheSound == "StaleChunkCache" \notin dev => \A q \in Queries : mcache[q] # None => IsFilter(mcache[q]) /\ mcache[q].q = q
 (* chunk cache entries exist only for full, shared chunks and hold exactly that chunk's matches *)
-ChunkCacheSound == \A e \in ccache : /\ Cardinality(ChunkItems(e.c, pushed)) = ChunkSize
-                                     /\ (e.gen = gen /\ "StaleChunkCache" \notin dev => e.items = {i \in ChunkItems(e.c, pushed) : Holds(e.key, i) /\ i \notin deny})
-                                     /\ Cardinality(e.items) <= QueryCacheMax
+ChunkCacheSound == \A e \in ccache : e.major = major =>
+                       /\ Cardinality(ChunkItems(e.c, pushed)) = ChunkSize
+                       /\ (e.gen = gen /\ "StaleChunkCache" \notin dev => e.items = {i \in ChunkItems(e.c, pushed) : Holds(e.key, i) /\ i \notin deny})
+                       /\ Cardinality(e.items) <= QueryCacheMax
 Quiescent == ~ENABLED System
-Converged == /\ tlist # None /\ tlist.q = tinput /\ tlist.count = pushed /\ tlist.final /\ tlist.sort = tsort
+Converged == /\ tlist # None /\ tlist.q = tinput /\ tlist.major = major /\ tlist.count = pushed /\ tlist.final /\ tlist.sort = tsort
              /\ tlist.items = FilterD(tinput, pushed, wanted)
-(* once input has ended and nothing is pending, the list is the fresh filter of the current query (C08) *)
+             /\ major = wantedMajor
+(* once input has ended and nothing is pending, the list is the fresh filter of the current query over the current   *)
+(* input (C08)                                                                                                        *)
 Convergence == (Quiescent /\ dev = {}) => Converged
 NeverStale == "StaleChunkCache" \notin dev      \* violated: the model reproduces finding F17
 NeverLost == "LostExclusion" \notin dev        \* violated: the model reproduces finding F21
